@@ -77,7 +77,7 @@ class C10(Prop):
         else:
             split = rng.choice((1, T - 1, rng.randint(1, T - 1)))
             case.update(kind="merge", split=split, chunksA=self._rand_comp(rng, split),
-                        chunksB=self._rand_comp(rng, T - split))
+                        chunksB=self._rand_comp(rng, T - split), inplace=rng.random() < 0.4)
         return case
 
     def _rand_comp(self, rng, n):
@@ -164,6 +164,9 @@ class C10(Prop):
             sp = case["split"]
             a = self._feed(data[:sp], case["den"], case["chunksA"], "full")
             b = self._feed(data[sp:], case["den"], case["chunksB"], "full")
+            if case.get("inplace"):
+                a += b                  # the in-place spelling must be the same merge
+                return self._summ(a)
             return self._summ(a + b)
         except Exception as e:  # noqa: BLE001
             return {"err": exc_name(e)}
